@@ -352,6 +352,69 @@ class FacadeSpace(Subspace):
             res.fail("iteration", f"{tag}: ngroups {g if not err else err} expected {len(exp)}")
 
 
+ROW_INDEXES = {
+    "range": lambda n: pd.RangeIndex(n, name="i"),
+    "range_rev": lambda n: pd.RangeIndex(n - 1, -1, -1, name="i"),          # sort_index(ascending=False)
+    "range_step": lambda n: pd.RangeIndex(0, 3 * n, 3, name="i"),           # df.iloc[::3]
+    "range_negstep": lambda n: pd.RangeIndex(10, 10 - 2 * n, -2, name="i"),  # df.iloc[::-2]
+    "shuffled": lambda n: pd.Index([7, 3, 9, 1, 5][:n], dtype="int64", name="i"),
+    "duplicates": lambda n: pd.Index([2, 2, 1, 1, 2][:n], dtype="int64", name="i"),
+    "strings": lambda n: pd.Index(list("qwert")[:n], name="i"),
+}
+
+
+class IndexKeySpace(FacadeSpace):
+    """the frame's own row index (or a mixture of a column and the index) as the group key"""
+    shard = 6
+
+    def __init__(self, name, lo, hi, indexes=tuple(ROW_INDEXES), seed=0, light=False):
+        FacadeSpace.__init__(self, name, lo, hi, "str", indexes=indexes, seed=seed, light=light)
+
+    def run(self, case):
+        res = Result()
+        _installed()
+        w = case["w"]
+        n = len(w)
+        res.nontrivial = n >= 2
+        seed = case["seed"]
+        klabs = ("b", "a")
+        kcol = np.array([None if k < 0 else klabs[k] for k, _ in w], dtype=object)
+        X, _ = C.make_values([x for _, x in w], "f8", seed)
+        Y = np.array(C.u_table("i8", seed + 1)[:n], dtype="i8")
+        seams = env.seams()
+        seams.set(executor=sched.NAMESPACE)
+        sched.set_schedule(sched.Schedule())
+        warnings.simplefilter("ignore")
+        for ixname in case["indexes"]:
+            idx = ROW_INDEXES[ixname](n)
+            df = pd.DataFrame({"k": kcol, "x": X, "y": Y}, index=idx)
+            num = df[["x", "y"]]
+            ikey = np.asarray(idx, dtype=object)
+            specs = [("level0", dict(level=0), num, ikey), ("level-name", dict(level="i"), num, ikey),
+                     ("by-index-name", dict(by="i"), num, ikey),
+                     ("by-col+index", dict(by=["k", "i"]), df, None)]
+            light = case.get("light")
+            if light:
+                specs = [specs[0], specs[3]]
+            for ksname, kw, frame, key in specs:
+                for selname, sel in (("none", lambda g: g), ("item", lambda g: g["x"]))[:1 if light else 2]:
+                    tag0 = f"rowindex={ixname} key={ksname} sel={selname}"
+                    fast = lambda: sel(frame.groupby_fast(**kw))  # noqa
+                    pdg = lambda: sel(frame.groupby(**kw))  # noqa
+                    self._aggregations(res, tag0, fast, pdg)
+                    if key is not None:
+                        self._cumulative(res, tag0, fast, pdg, frame, key, ["x"])
+                if key is not None:
+                    self._iteration(res, f"rowindex={ixname} key={ksname}", frame, lambda: dict(kw), key)
+            s = df["x"]
+            # (a Series facade documents `by` as array-like only: the index is reached with level=)
+            for ksname, kw in (("level0", dict(level=0)), ("level-name", dict(level="i"))):
+                tag0 = f"Series rowindex={ixname} key={ksname}"
+                self._aggregations(res, tag0, lambda: s.groupby_fast(**kw), lambda: s.groupby(**kw))
+        seams.reset()
+        return res
+
+
 def subspaces(tier, seed):
     q = tier == "quick"
     sp = []
@@ -363,7 +426,12 @@ def subspaces(tier, seed):
                               light=True, seed=seed))
         sp.append(FacadeSpace("intkey-n2to3-light", 2, 3, "int", indexes=("strings",), light=True,
                               seed=seed))
+        sp.append(IndexKeySpace("rowindex-as-key-n1to2", 1, 2, seed=seed))
+        sp.append(IndexKeySpace("rowindex-as-key-n3-light", 3, 3, indexes=("range_rev", "range_negstep", "duplicates"),
+                                light=True, seed=seed))
     else:
+        sp.append(IndexKeySpace("rowindex-as-key-n1to3", 1, 3, seed=seed))
+        sp.append(IndexKeySpace("rowindex-as-key-n4-light", 4, 4, light=True, seed=seed))
         sp.append(FacadeSpace("strkey-n1to3", 1, 3, "str", seed=seed))
         sp.append(FacadeSpace("strkey-n4-light", 4, 4, "str", indexes=("default", "shuffled", "duplicates"),
                               light=True, seed=seed))
